@@ -55,6 +55,10 @@ sexp kit_bignum(int len, int sign);
 sexp kit_any_bignum(int len, int canonical);
 sexp kit_any_fixnum(void);
 
+/* C02(B) collection model (env.c, -DKIT_GC_MODEL) */
+void kit_gc_root(sexp x);
+extern int kit_gc_collections, kit_gc_n;
+
 /* exception model bookkeeping */
 extern int kit_exceptions_made;
 
